@@ -74,6 +74,19 @@ def sim_mark(cells):
     return [Cell(ch=" ") if (c.ch == "_") else c for c in cells]
 
 
+def sim_mark2(cells):
+    """custom sanitizer `mark2`: every pair `__` becomes the (2-byte, cased, non-ASCII) character U+00C9"""
+    out, i = [], 0
+    while i < len(cells):
+        if cells[i].ch == "_" and i + 1 < len(cells) and cells[i + 1].ch == "_":
+            out.append(Cell(ch="\u00c9"))
+            i += 2
+        else:
+            out.append(cells[i])
+            i += 1
+    return out
+
+
 def simulate(sanitizers, cells):
     plans = []
     for s in sanitizers:
@@ -86,12 +99,14 @@ def simulate(sanitizers, cells):
             cells = [c.uppered() for c in cells]
         elif s == "with":
             cells = sim_mark(cells)
+        elif s == "with2":
+            cells = sim_mark2(cells)
     return cells, plans
 
 
 SKELETONS_ALL = ["", " ", "X", " X", "X ", " XY ", "X Y", "\tX\n", "_X_", " _X", "_ X", "\u00e9X", " \u00c9 ", "X\u00a0", "\u2003 X ", "XYZ", "  ",
-                 "x_Y ", "\u00a0 X", "Ab_", "\u00df", "\u0085X"]
-SKELETONS_QUICK = ["", " X", " XY ", "_X_", "\u00a0 X", "\u00c9X "]
+                 "x_Y ", "\u00a0 X", "Ab_", "\u00df", "\u0085X", "__X", " __ "]
+SKELETONS_QUICK = ["", " X", " XY ", "_X_", "\u00a0 X", "\u00c9X ", "__X"]
 
 VARIANT = {"not_empty": "NotEmptyViolated", "min": "LenCharMinViolated", "max": "LenCharMaxViolated", "pred": "PredicateViolated", "regex": "RegexViolated"}
 
@@ -111,7 +126,7 @@ class StrDecl:
     def modname(self):
         if self._mod:
             return self._mod
-        p = ["s"] + [{"trim": "t", "lowercase": "lo", "uppercase": "up", "with": "w"}[s] for s in self.sanitizers]
+        p = ["s"] + [{"trim": "t", "lowercase": "lo", "uppercase": "up", "with": "w", "with2": "w2"}[s] for s in self.sanitizers]
         p += ["v"] + [{"not_empty": "ne", "min": "mn", "max": "mx", "pred": "p", "regex": "rx"}[v] for v in self.validators]
         if self.literal:
             p.append("lit")
@@ -129,6 +144,8 @@ class StrDecl:
             for s in self.sanitizers:
                 if s == "with":
                     ss.append("with = " + {"fn": "mark", "closure": "|s| mark(s)", "closure_typed": "|s: String| mark(s)"}[self.with_form])
+                elif s == "with2":
+                    ss.append("with = mark2")
                 else:
                     ss.append(s)
             items.append("sanitize(%s)" % ", ".join(ss))
@@ -165,6 +182,9 @@ class StrDecl:
         if "regex" in self.validators:
             out.append("static mut RXPAR: usize = 0;\n    /// regex object given by path: the macro only needs `.is_match(&str)`\n"
                        "    pub struct Rx { pub tag: u8 } impl Rx { pub fn is_match(&self, s: &str) -> bool { s.len() % 2 == unsafe { RXPAR } % 2 } }\n    pub static RX: Rx = Rx { tag: 1 };")
+        if "with2" in self.sanitizers:
+            out.append("/// custom sanitizer that INTRODUCES a cased non-ASCII character: every `__` becomes U+00C9 (same byte length)\n"
+                       "    fn mark2(s: String) -> String { let mut v = s.into_bytes(); let mut i = 0; while i + 1 < v.len() { if v[i] == b'_' && v[i + 1] == b'_' { v[i] = 0xC3; v[i + 1] = 0x89; i += 1; } i += 1; } unsafe { String::from_utf8_unchecked(v) } }")
         if "with" in self.sanitizers:
             out.append("/// custom sanitizer: in place, length preserving: every `_` becomes a space\n"
                        "    fn mark(s: String) -> String { let mut v = s.into_bytes(); let mut i = 0; while i < v.len() { if v[i] == b'_' { v[i] = b' '; } i += 1; } unsafe { String::from_utf8_unchecked(v) } }")
@@ -333,6 +353,9 @@ def decl_catalogue(tier, rng, for_prop):
     # literal bounds and closure spellings
     D.append(StrDecl(["trim"], ["min", "max"], literal={"min": 1, "max": 2}))
     D.append(StrDecl(["trim"], ["not_empty", "min", "max"], literal={"min": 2, "max": 3}))
+    if for_prop != "C11":
+        D.append(StrDecl(["with2", "lowercase"], ["max"]))
+        D.append(StrDecl(["trim", "with2", "lowercase"], []))
     D.append(StrDecl(["with", "trim"], ["pred", "max"], with_form="closure", pred_form="closure"))
     D.append(StrDecl(["trim", "with"], ["pred"], with_form="closure_typed", pred_form="closure_typed"))
     return D
